@@ -606,6 +606,16 @@ func vvcRunOrder(t *testing.T, res *vResult, cs *vvcCase, ord []int, kinds, eqcl
 			switch {
 			case got != 0 && vvcAnc(cs.O.T, cs.Res.Target, got):
 				rel = "below-target"
+				// symptom of getPossibleSelectedBlocks returning as soon as some DIRECTLY voted
+				// block has more than two thirds: the answer is a directly prevoted block that
+				// itself has the supermajority, although a higher block (not voted for directly)
+				// has it too
+				for _, m := range cs.O.Ms {
+					if m.Stage == "prevote" && m.B == got && m.Sig == "ok" && m.Num == "ok" && m.ID <= cs.O.N &&
+						3*cs.Res.PvTotals[got-1] > 2*cs.O.N {
+						rel = "below-target-directly-voted-block"
+					}
+				}
 			case got != 0 && vvcAnc(cs.O.T, got, cs.Res.Target):
 				rel = "above-target"
 			}
